@@ -1,6 +1,9 @@
+mod alloc;
+mod auth;
 mod oracle;
 mod panics;
 mod rng;
+mod shard;
 mod sim;
 
 use sim::r#gen::Profile;
@@ -235,8 +238,20 @@ fn main() {
                 println!("VIOLATION {v:?}");
             }
         }
+        "auth" => {
+            let code = auth::main(&args[2..]);
+            std::process::exit(code);
+        }
+        "alloc" => {
+            let code = alloc::main(&args[2..]);
+            std::process::exit(code);
+        }
+        "shard" => {
+            let code = shard::main(&args[2..]);
+            std::process::exit(code);
+        }
         _ => {
-            eprintln!("usage: hqv smoke|trace|triage|replay ...");
+            eprintln!("usage: hqv smoke|trace|triage|replay|shard ...");
         }
     }
 }
